@@ -234,15 +234,17 @@ def strategy(tier):
             e = int(ee[ax]) * unit
             top = max(e - (0 if kind == "space" else unit), 0)
             inside = st.integers(0, top)
-            return draw(wone_of(inside, inside, inside, inside, inside, st.sampled_from([0, top, top, max(top - unit, 0)]),
+            edge = st.sampled_from([0, top, top, max(top - unit, 0)])
+            return draw(wone_of(inside, inside, inside, inside, edge, edge,
                                   st.sampled_from([top + 1, -1, top + unit, -unit]), st.integers(-2 * unit, e + 2 * unit)))
 
         def delta(ax):
             if kind == "space" and not exact:
                 return draw(wone_of(st.floats(-3.0, 3.0), st.floats(-1e12, 1e12, allow_nan=False), st.sampled_from([0.0, 1e9, -1e9])))
             e = int(ee[ax]) * unit
-            return draw(wone_of(st.integers(-3 * unit, 3 * unit), st.sampled_from([0, e, -e, 3 * e + unit, -(3 * e + unit), e - 1, 1 - e,
-                                                                                      10 ** 9 * unit, -10 ** 9 * unit, 2 * e, -2 * e])))
+            small = st.integers(-3 * unit, 3 * unit)
+            special = st.sampled_from([0, e, -e, 3 * e + unit, -(3 * e + unit), e - 1, 1 - e, 10 ** 9 * unit, -10 ** 9 * unit, 2 * e, -2 * e])
+            return draw(wone_of(small, small, special, special, st.just(0)))
         a = st.integers(0, 3)
         ops = []
         n = draw(st.integers(1, 30))
